@@ -212,6 +212,15 @@ def case_model(rng, tier, i, degen=False, force_name=None, force_mode=None, forc
         fit_data = cast(fit_data) if fit_data is not None else None
         init = init.astype(np.float32)
     reassign = _MCOUNT[0] % 3 == 0
+    if not degen and not single and _MCOUNT[0] % 5 == 1:
+        # "all initial affiliations with positive class mass": hard masks are naturally boolean / integer typed and
+        # need not be one-hot (overlapping masks, vote counts)
+        b = rng.random(init.shape) < 0.5
+        b[..., 0, :] |= ~b.any(-2)
+        for k in range(K):
+            b[..., k, k % N] = True            # every class keeps mass
+        init = b if rng.random() < 0.5 else b.astype(np.int64) * rng.integers(1, 4, size=b.shape)
+        style = 'mask/' + str(init.dtype)
     use_num_classes = (not degen) and rng.random() < 0.1 and 'source_activity_mask' not in opts
     seed = int(rng.integers(0, 2 ** 31))
     rp = {'fn': 'model', 'model': name, 'data': {k: v for k, v in data.items() if k != 'labels'}, 'init': init,
